@@ -30,19 +30,19 @@ CHECKS = {
          "pack/unpack byte layout, refusal of short buffers, on-air frame sequence, frame-id sharing, counters, last-fragment convention and restoration of the caller's header are checked on the complete enumerated domain."),
  "C12": ("model_checking", "6 C12 / 9", "explicit-state BFS vs a reference bounded duplicate-free FIFO over enqueue (fresh/duplicate/alternative/mutated/reused frames), dequeue, peek, len, max_queue_size and fragmentation toggles on the real queue classes and through a real node",
          "All operation sequences to depth 7 (thorough 9); return values and complete queue contents compared with the reference after every step."),
- "C13": ("fault_enumeration", "6 C13 / 9", "stateless choice-replay DFS: every single (thorough: pair/triple of) lost frame hop(s) on routes of 1..8 hops, all 256 types on a 2-hop route, cross traffic through a waiting origin, in a deterministic multi-node discrete-event world",
-         "Every failure point of every frame hop (message and NETWORK_ACK relays) is enumerated; NETWORK_ACK origination count/originator/addressee, write()'s return value against the ground-truth arrival time, and the blocking bound are checked on every execution."),
+ "C13": ("fault_enumeration", "6 C13 / 9", "stateless choice-replay DFS: every set of up to 3 / 2 (thorough 4 / 3) lost frame hops on routes of 1..8 hops, lost hardware ACKs as a third fault kind, all 256 types on a 2-hop route, cross traffic through a waiting origin (also with multicasting off), one header object used twice, in a deterministic multi-node discrete-event world",
+         "Every failure point of every frame hop (message and NETWORK_ACK relays) is enumerated; NETWORK_ACK origination count/originator/addressee, how often it was loaded into the originator's radio (PID ground truth) against the number of deliveries, write()'s return value against the ground-truth arrival time, and the blocking bound are checked on every execution."),
  "C14": ("model_checking", "6 C14 / 9", "exhaustive enumeration of sender class x level x relay configuration x allow_multicast x length x timing class x pre-history in a 9-node discrete-event world; reference propagation model",
-         "All combinations are executed with real nodes; receivers, levels, relays' re-broadcasts, absence of hardware ACKs / ACK requests and pipe-0 registers are compared with a reference propagation model; 11 pre-histories (unicast traffic, re-addressing, earlier same-type frames)."),
+         "All combinations are executed with real nodes; receivers, levels, relays' re-broadcasts, absence of hardware ACKs / ACK requests and pipe-0 registers are compared with a reference propagation model; 18 pre-histories (unicast traffic, re-addressing, earlier same-type frames, back-to-back multicasts, full queues, an earlier or still pending routed acknowledged-type send), overridden multicast levels, a second population."),
  "C15": ("model_checking", "6 C15 / 9", "exhaustive enumeration of injected frames (256 types x lengths x destination classes x origin classes x environment) over 22 (role, level) nodes, frame pairs, raw short payloads, and the validity predicate over all 65 536 values, each on a deep copy of a real node with ghost radios",
          "update() must return normally in bounded virtual time for every frame; invalid/short frames must leave queue and air untouched; is_address_valid equals an independent predicate on every 16-bit value."),
  "C16": ("model_checking", "6 C16 / 9", "explicit-state BFS with dedup on the lease table over request (direct / via relays) / re-request / release / save+load events on a real RF24Mesh master with ghost requesters; persistence enumerated for every table size 0..255",
          "All event sequences to depth 5 (thorough 7) from 4 starting tables; every MESH_ADDR_RESPONSE on the simulated air and the table after every event are checked against the lease constraints."),
- "C17": ("model_checking", "6 C17 / 9", "schedule enumeration (join order x pairwise-distinct start offsets x timing classes) of real mesh nodes joining a real master in a deterministic discrete-event world, plus every single lost frame of small joins",
-         "Every enumerated schedule is executed to completion; join results, master table, lookups (known/trivial/unknown), send-to-id, renew while connected, release and re-join are checked against the documented values; with one lost frame only no-exception/termination/valid-or-None."),
- "C18": ("model_checking", "6 C18 / 9", "exhaustive enumeration of names x PA field x chunk splits around the capacity boundary x channels, plus explicit-state BFS over hop_channel / channel= / with-block histories; oracle = independent bit-serial BLE link-layer decoder applied to what reached the simulated radio",
+ "C17": ("model_checking", "6 C17 / 9", "schedule enumeration (join order x pairwise-distinct start offsets x timing classes) of real mesh nodes joining a real master in a deterministic discrete-event world, every enabled sequence of 4 (thorough 5) membership changes (join / release / renew) among three nodes followed by sends between all connected pairs and lookups, plus every single lost frame of small joins",
+         "Every enumerated schedule is executed to completion; join results, master table, lookups (known/trivial/unknown), send-to-id, renew while connected, release and re-join are checked against the documented values, the scripted histories step by step against a reference of who is connected where; with one lost frame only no-exception/termination/valid-or-None."),
+ "C18": ("model_checking", "6 C18 / 9", "exhaustive enumeration of names x PA field x chunk splits around the capacity boundary x channels, plus explicit-state BFS (depth 6, thorough 9) over hop_channel / channel= / name / PA / with-block histories; oracle = independent bit-serial BLE link-layer decoder applied to what reached the simulated radio",
          "Every produced payload is de-whitened for the channel the radio was tuned to at transmission and must be a correct ADV_NONCONN_IND PDU with correct CRC-24; len_available and the ValueError boundary are exact."),
- "C19": ("model_checking", "6 C19 / 9", "exhaustive enumeration over the simulated air of service-data domains, all 1-bit and (PDU-region / thorough: all) 2-bit corruptions, adversarial CRC-valid AD structures and queue interleavings, against an independent BLE encoder/decoder",
+ "C19": ("model_checking", "6 C19 / 9", "exhaustive enumeration over the simulated air of service-data domains, all 1-bit and (PDU-region / thorough: all) 2-bit corruptions - also each one right after the undamaged packet -, adversarial CRC-valid AD structures, queue interleavings and every sequence of 3 (4) attribute changes / advertisements on one sending object, against an independent BLE encoder/decoder",
          "Queued iff the reference accepts; decoded fields equal what was advertised; available() never raises; read() is FIFO, once each."),
 }
 NA = {}
